@@ -77,9 +77,10 @@ def param_value(name, ty, variant):
         return ("enum", "InsertPoint::End", [])
     seq = t.startswith(("implAsRef<[", "implIntoIterator<", "Vec<", "&[", "implIterator<"))
     if seq:
+        idxs = (0, 0) if variant == "dup" else (0, 1)          # "dup": the same element twice
         if "(" in t:
-            return ("list", [("tuple", [("elem", name, i, 0), ("elem", name, i, 1)]) for i in range(2)])
-        return ("list", [("elem", name, i) for i in range(2)])
+            return ("list", [("tuple", [("elem", name, i, 0), ("elem", name, i, 1)]) for i in idxs])
+        return ("list", [("elem", name, i) for i in idxs])
     return ("param", name)
 
 
@@ -99,7 +100,9 @@ def run(ctx, f, variant, selected, insert_point=None, twin=None):
     env = {"self": b}
     for name, ty in [(p[0], p[1]) for p in f["sig"]["params"] if p[0] != "self"]:
         # variant: "some" / "none" (all optional arguments), or ("only", p) / ("without", p)
-        var = variant
+        var = "some" if variant == "dup" else variant
+        if variant == "dup" and not ty.replace(" ", "").startswith("Option<"):
+            var = "dup"
         if isinstance(variant, tuple):
             var = ("some" if name == variant[1] else "none") if variant[0] == "only" else ("none" if name == variant[1] else "some")
         v = param_value(name, ty, var)
@@ -318,6 +321,25 @@ def summarise(ctx, f, base):
                     if opt_shape(vm) != opt_shape(exp):
                         raise Anchor("with %s %s the %s is %s" % (kind, pn, fld, opt_shape(vm)))
     s["slots"] = out
+    # a slice / iterator argument holding the same element twice: both occurrences are emitted
+    if any(sl[0] in ("many", "additional") for sl in out):
+        rd, bd, hd = run(ctx, f, "dup", state)
+        placed_d = [i for i in hd.insts if locate(bd, i)[0] is not None]
+        if len(placed_d) != 1:
+            raise Anchor("with a repeated element the instruction is not stored exactly once")
+
+        def first_elem(o):
+            if isinstance(o, tuple):
+                if o and o[0] == "elem" and len(o) >= 3 and o[2] == 1:
+                    return o[:2] + (0,) + o[3:]
+                return tuple(first_elem(x) for x in o)
+            if isinstance(o, list):
+                return [first_elem(x) for x in o]
+            return o
+        want_d = [first_elem(o) for o in ops1[1]]
+        got_d = list(placed_d[0][2]["operands"][1])
+        if got_d != want_d:
+            raise Anchor("given the same element twice the operands are %r (a repeated element is dropped or altered)" % (got_d,))
     # an equal instruction already present must not change what the call does (emitting twice is the caller's business)
     if not base.get("dedup") and "dedup_insert_type" not in repr(f["body"])[:0]:
         if not any(x[0] == "mcall" and x[2] == "dedup_insert_type" for x in _walk(f["body"])):
